@@ -98,7 +98,7 @@ def r19_1(ctx):
     # know the value): the NCP is alive, so this is not a failed keep-alive - the feed succeeds and the count is cleared.  The real
     # EZSP facade is attached, so helpers the read goes through are followed.
     ezst = repo.cls("bellows.types.named", "EzspStatus").members()
-    read = Outcomes(OK((ezst["SUCCESS"], b"\x07\x00")), OK((ezst["ERROR_INVALID_ID"], b"")))
+    read = Outcomes(OK((ezst["SUCCESS"], b"\x07\x00")), OK((ezst["ERROR_INVALID_ID"], b"")), RAISE("TimeoutError"), RAISE("EzspError"))
     px2 = PX(repo, models=[(k, Outcomes(OK({}))) for k in KEEPALIVE_CALLS] + [("self._ezsp.getValue", read), ("self.getValue", read)],
              inline=lambda g, aw: g.cls is not None and (g.cls.name in ("ControllerApplication", "EZSP") and g.name not in ("_command", "__getattr__") or g.name == "from_ember_status"))
     for n in (0, MAX):
@@ -109,6 +109,16 @@ def r19_1(ctx):
         for p in px2.explore(f, setup2):
             ctx.paths += 1
             rd = [e for e in p.events if e.kind == "await" and e.what in ("self._ezsp.getValue", "self.getValue")]
+            if rd and str(rd[0].extra).startswith("raises "):
+                # the read is *not answered* (time-out) or rejected at the protocol level (EZSP error): that is a failed keep-alive like any
+                # other command of the feed - whichever helper the read goes through, the failure must be counted
+                kind = str(rd[0].extra).split()[1]
+                cnt = p.store["self"].get("_watchdog_failures")
+                ok = cnt == n + 1 and ((n + 1 > MAX) == (p.terminal == "raise"))
+                ctx.require(ok, f"_watchdog_feed:free-buffer-read-{kind}", f"v8, count {n}: keep-alive answered, the free-buffer read ends with {kind}: the feed "
+                            f"{p.terminal}s with count {cnt!r}; it is a failed keep-alive (count {n + 1}, raising exactly above the maximum {MAX})", func=f,
+                            trace=p.trace(20))
+                continue
             answer = "refused" if rd and isinstance(rd[0].extra, tuple) and getattr(rd[0].extra[0], "name", "") != "SUCCESS" else "accepted"
             cnt = p.store["self"].get("_watchdog_failures")
             ctx.require(p.terminal == "return" and cnt == 0, f"_watchdog_feed:free-buffer-read-{answer}",
